@@ -491,7 +491,7 @@ std::string runStorm(const std::vector<std::string>& t)
   if (t.size() != 4 || !vh::parseNat(t[1], seed) || !vh::parseNat(t[2], rounds) || !vh::parseNat(t[3], nthr)) return "bad-op";
   std::mt19937_64 rng(seed);
   int badResults = 0, lateCallbacks = 0, stuck = 0;
-  long calls = 0;
+  long calls = 0, stranded = 0;
   for (u64 r = 0; r < rounds; ++r)
   {
     TransportConfig cfg;
@@ -499,11 +499,14 @@ std::string runStorm(const std::vector<std::string>& t)
     auto tr = Transport::tcp(cfg);
     std::atomic<bool> stopped{false};
     std::atomic<int> late{0};
+    std::mutex idm;
+    std::set<SessionId> closedIds;                 // ids that got the global onClose
+    std::vector<SessionId> okIds;                  // ids connect()/connectSync returned ok for
     auto cb = [&] { if (stopped.load()) late++; };
     tr->onAccept([&](SessionId, const TransportAddress&) { cb(); });
     tr->onConnect([&](SessionId, const TransportAddress&) { cb(); });
     tr->onData([&](SessionId, iora::core::BufferView, std::chrono::steady_clock::time_point) { cb(); });
-    tr->onClose([&](SessionId, const TransportErrorInfo&) { cb(); });
+    tr->onClose([&](SessionId sid, const TransportErrorInfo&) { cb(); std::lock_guard<std::mutex> lk(idm); closedIds.insert(sid); });
     if (!tr->start().isOk()) { badResults++; continue; }
     auto l0 = tr->addListener("127.0.0.1", 0, TlsMode::None);
     std::uint16_t port = 0;
@@ -528,9 +531,10 @@ std::string runStorm(const std::vector<std::string>& t)
           {
             case 0: { auto x = raw->addListener("127.0.0.1", 0, TlsMode::None);
                       if (x.isErr() && x.error().code != TransportError::ShuttingDown && x.error().code != TransportError::Bind) bad++; break; }
-            case 1: { auto x = raw->connect("127.0.0.1", port, TlsMode::None); if (x.isOk()) last = x.value(); break; }
+            case 1: { auto x = raw->connect("127.0.0.1", port, TlsMode::None);
+                      if (x.isOk()) { last = x.value(); std::lock_guard<std::mutex> lk(idm); okIds.push_back(last); } break; }
             case 2: { auto x = raw->connectSync("127.0.0.1", port, TlsMode::None, std::chrono::milliseconds(20));
-                      if (x.isOk()) last = x.value(); break; }
+                      if (x.isOk()) { last = x.value(); std::lock_guard<std::mutex> lk(idm); okIds.push_back(last); } break; }
             case 3: { std::uint8_t b[4] = {1, 2, 3, 4}; if (last) raw->send(last, iora::core::BufferView{b, 4}); break; }
             case 4: { if (last) raw->close(last); break; }
             case 5: { std::uint8_t b[8]; std::size_t n = 8; if (last) { raw->setReadMode(last, ReadMode::Sync);
@@ -548,13 +552,148 @@ std::string runStorm(const std::vector<std::string>& t)
     for (auto& x : th) x.join();
     if (std::chrono::steady_clock::now() - t0 > std::chrono::seconds(20)) stuck++;
     (void)destroy;
+    {
+      // every id handed to the application must have been closed by the time stop() has returned (and the callers are back)
+      std::lock_guard<std::mutex> lk(idm);
+      for (auto id : okIds) if (!closedIds.count(id)) stranded++;
+    }
     tr.reset();
     calls += ncalls.load();
     badResults += bad.load();
     lateCallbacks += late.load();
   }
   return "storm rounds=" + std::to_string(rounds) + " calls>0=" + (calls > 0 ? "1" : "0") + " bad=" + std::to_string(badResults) + " late=" +
-         std::to_string(lateCallbacks) + " stuck=" + std::to_string(stuck);
+         std::to_string(lateCallbacks) + " stuck=" + std::to_string(stuck) + " stranded=" + std::to_string(stranded);
+}
+
+// cstorm <seed> <rounds> <threads>: real TcpEngine, worker threads call connect() in a tight loop (to a port nobody listens on)
+// while the main thread calls stop() a few hundred microseconds later. Every id for which connect() returned ok must have got
+// its onClose by the time stop() has returned and the workers are back: an enqueue that lands after the shutdown drain took the
+// residual commands must be refused, not accepted into a queue nobody reads again.
+std::string runConnectStorm(const std::vector<std::string>& t)
+{
+  u64 seed = 0, rounds = 0, nthr = 0;
+  if (t.size() != 4 || !vh::parseNat(t[1], seed) || !vh::parseNat(t[2], rounds) || !vh::parseNat(t[3], nthr)) return "bad-op";
+  std::mt19937_64 rng(seed);
+  long stranded = 0, total = 0, late = 0;
+  int roundsHit = 0;
+  for (u64 r = 0; r < rounds; ++r)
+  {
+    TransportConfig cfg;
+    cfg.protocol = Protocol::TCP;
+    auto tr = Transport::tcp(cfg);
+    std::mutex idm;
+    std::set<SessionId> reported;
+    std::atomic<bool> stopped{false};
+    std::atomic<long> lateCb{0};
+    tr->onConnect([&](SessionId sid, const TransportAddress&) { if (stopped.load()) lateCb++; std::lock_guard<std::mutex> lk(idm); reported.insert(sid); });
+    tr->onClose([&](SessionId sid, const TransportErrorInfo&) { if (stopped.load()) lateCb++; std::lock_guard<std::mutex> lk(idm); reported.insert(sid); });
+    if (!tr->start().isOk()) return "storm-start-failed";
+    std::atomic<bool> go{false};
+    std::vector<std::vector<SessionId>> oks(nthr);
+    std::vector<std::thread> th;
+    Transport* raw = tr.get();
+    for (u64 w = 0; w < nthr; ++w)
+      th.emplace_back([&, w, raw] {
+        while (!go.load()) std::this_thread::yield();
+        for (int i = 0; i < 200000; ++i)
+        {
+          auto x = raw->connect("127.0.0.1", 1, TlsMode::None);
+          if (!x.isOk()) break;            // the queue is closed: the engine has been stopped
+          oks[w].push_back(x.value());
+        }
+      });
+    go = true;
+    std::this_thread::sleep_for(std::chrono::microseconds(100 + rng() % 600));
+    tr->stop();
+    stopped = true;
+    for (auto& x : th) x.join();
+    long miss = 0;
+    {
+      std::lock_guard<std::mutex> lk(idm);
+      for (auto& v : oks) for (auto id : v) { total++; if (!reported.count(id)) miss++; }
+    }
+    if (miss) roundsHit++;
+    stranded += miss;
+    late += lateCb.load();
+    tr.reset();
+  }
+  return "cstorm rounds=" + std::to_string(rounds) + " ids>0=" + (total > 0 ? "1" : "0") + " stranded=" + std::to_string(stranded) +
+         " roundsWithStranded=" + std::to_string(roundsHit) + " late=" + std::to_string(late);
+}
+
+// latch: deterministic variant. One loopback session is established; its shutdown-drain onClose callback issues a connect(),
+// which becomes a RESIDUAL command of the drain; when that residual connect's onClose(ShuttingDown) callback runs, the I/O
+// thread is held inside it while a second thread calls connect() and send(). The queue must already be closed: connect() must
+// return an error (or, if it returns ok, the id must still get its onClose), send() must return false.
+std::string runLatch()
+{
+  TransportConfig cfg;
+  cfg.protocol = Protocol::TCP;
+  auto tr = Transport::tcp(cfg);
+  std::mutex m;
+  std::condition_variable cv;
+  bool windowOpen = false, t2Done = false;
+  std::set<SessionId> closed;
+  std::atomic<int> accepted{0}, connected{0};
+  std::atomic<bool> armed{false}, issued{false};
+  std::atomic<SessionId> idA{0};
+  Transport* raw = tr.get();
+  tr->onAccept([&](SessionId, const TransportAddress&) { accepted++; });
+  tr->onConnect([&](SessionId, const TransportAddress&) { connected++; });
+  tr->onClose([&](SessionId sid, const TransportErrorInfo& e) {
+    { std::lock_guard<std::mutex> lk(m); closed.insert(sid); }
+    if (!armed.load()) return;
+    if (e.code == TransportError::ShuttingDown && sid == idA.load() && idA.load() != 0)
+    {
+      // residual connect being reported: hold the I/O thread here while the second thread runs
+      std::unique_lock<std::mutex> lk(m);
+      windowOpen = true;
+      cv.notify_all();
+      cv.wait_for(lk, std::chrono::seconds(5), [&] { return t2Done; });
+      return;
+    }
+    bool exp = false;
+    if (issued.compare_exchange_strong(exp, true))
+    {
+      auto r = raw->connect("127.0.0.1", 1, TlsMode::None);   // issued from a close callback of the drain
+      if (r.isOk()) idA = r.value();
+    }
+  });
+  if (!tr->start().isOk()) return "latch-start-failed";
+  auto l0 = tr->addListener("127.0.0.1", 0, TlsMode::None);
+  if (!l0.isOk()) return "latch-listen-failed";
+  std::uint16_t port = tr->getListenerAddress(l0.value()).port;
+  auto c0 = tr->connect("127.0.0.1", port, TlsMode::None);
+  for (int k = 0; k < 1500 && !(accepted.load() >= 1 && connected.load() >= 1); ++k) std::this_thread::sleep_for(std::chrono::milliseconds(2));
+  if (!c0.isOk() || accepted.load() < 1 || connected.load() < 1) return "latch-setup-failed";
+  armed = true;
+  bool connOk = false, sendOk = false, ran = false;
+  SessionId idB = 0;
+  std::thread t2([&] {
+    {
+      std::unique_lock<std::mutex> lk(m);
+      if (!cv.wait_for(lk, std::chrono::seconds(5), [&] { return windowOpen; })) { t2Done = true; cv.notify_all(); return; }
+    }
+    ran = true;
+    auto r = raw->connect("127.0.0.1", 1, TlsMode::None);
+    if (r.isOk()) { connOk = true; idB = r.value(); }
+    std::uint8_t b[2] = {1, 2};
+    sendOk = raw->send(c0.value(), iora::core::BufferView{b, 2});
+    std::lock_guard<std::mutex> lk(m);
+    t2Done = true;
+    cv.notify_all();
+  });
+  tr->stop();
+  t2.join();
+  bool strandedB;
+  {
+    std::lock_guard<std::mutex> lk(m);
+    strandedB = connOk && !closed.count(idB);
+  }
+  tr.reset();
+  return std::string("latch window=") + (ran ? "1" : "0") + " connectAccepted=" + (connOk ? "1" : "0") + " stranded=" + (strandedB ? "1" : "0") +
+         " sendAccepted=" + (sendOk ? "1" : "0");
 }
 
 std::string stepOp(const std::vector<std::string>& t)
@@ -562,6 +701,8 @@ std::string stepOp(const std::vector<std::string>& t)
   if (t.empty()) return "bad-op";
   if (t[0] == "sched") return runSched(t);
   if (t[0] == "storm") return runStorm(t);
+  if (t[0] == "cstorm") return runConnectStorm(t);
+  if (t[0] == "latch") return runLatch();
   return "bad-op";
 }
 } // namespace
